@@ -109,8 +109,9 @@ theorem unwrap_no_panic (dl : Nat) (rrs : List RR) : ∃ d, unwrap dl rrs = ok d
     obtain ⟨parts, hp⟩ := mapRes_no_panic (recordData dl) (recordData_no_panic dl) ((sortByPrio (ps.zip rrs)).map (·.2))
     exact ⟨parts.flatten, by simp [h, hps, hp]⟩
 
-theorem decodeResponse_no_panic (cd : Codec) (code down : Nat) (data : List Nat) : ∃ r, decodeResponse cd code down data = ok r := by
+theorem decodeResponse_no_panic (cd : Codec) (hT : cd.Total) (code down : Nat) (data : List Nat) : ∃ r, decodeResponse cd code down data = ok r := by
   unfold decodeResponse
+  simp only [Codec.decode_total hT, Res.bind_ok]
   by_cases h0 : data.length = 0
   · exact ⟨none, by simp [h0]⟩
   · have h1 : 1 ≤ data.length := Nat.pos_of_ne_zero h0
@@ -154,7 +155,7 @@ theorem decodeResponse_no_panic (cd : Codec) (code down : Nat) (data : List Nat)
                 · simp only [c7, ite_true]; exact ⟨_, rfl⟩
                 · simp only [c7, ite_false]; exact ⟨_, rfl⟩
 
-theorem decodeAnswer_no_panic (cd : Codec) (dl down : Nat) (rrs : List RR) : ∃ r, decodeAnswer cd dl down rrs = ok r := by
+theorem decodeAnswer_no_panic (cd : Codec) (hT : cd.Total) (dl down : Nat) (rrs : List RR) : ∃ r, decodeAnswer cd dl down rrs = ok r := by
   unfold decodeAnswer
   obtain ⟨data, hd⟩ := unwrap_no_panic dl rrs
   rw [hd]
@@ -172,7 +173,7 @@ theorem decodeAnswer_no_panic (cd : Codec) (dl down : Nat) (rrs : List RR) : ∃
       cases hr with
       | false => exact ⟨none, rfl⟩
       | true =>
-        obtain ⟨r, hr⟩ := decodeResponse_no_panic cd code down data
+        obtain ⟨r, hr⟩ := decodeResponse_no_panic cd hT code down data
         exact ⟨r, by simp [callField, hr]⟩
 
 end SA.DnsClient
